@@ -286,7 +286,12 @@ class ParamikoTransport(Transport):
     def write(self, channel_input: bytes) -> None:
         if not self.session_channel:
             raise ScrapliConnectionNotOpened
-        self.session_channel.send(channel_input)
+        try:
+            self.session_channel.send(channel_input)
+        except OSError as exc:
+            msg = "failed writing to transport; typically means the device closed the connection"
+            self.logger.critical(msg)
+            raise ScrapliConnectionError(msg) from exc
 
     def _set_timeout(self, value: float) -> None:
         """
